@@ -129,8 +129,10 @@ var wideAttrs = 3
 // alone returns the chunks the operation writes when performed alone on a fresh handler.
 func alone(handler, kind int, tag string) []string {
 	w := &sink{}
-	root := newRoot(handler, w)
-	doOp(root, derive(root), deriveWide(root), kind, tag)
+	vsched.Free(func() {
+		root := newRoot(handler, w)
+		doOp(root, derive(root), deriveWide(root), kind, tag)
+	})
 	return w.chunks
 }
 
